@@ -2220,9 +2220,12 @@ impl Lexer<'_> {
                 if is_valid_unicode_sas_name_start(c) || (!first_token && is_xid_continue(c)) {
                     // A macro string in place of macro identifier
                     // First checkpoint BEFORE consuming! See above why.
-                    // If we do not have a bug, it may not be set yet, so this call
-                    // is safe.
-                    self.checkpoint();
+                    // It may already be set if a macro comment separated this
+                    // part of the name from the previous one (`a%*c;b`), in which
+                    // case we keep the earlier one.
+                    if self.checkpoint.is_none() {
+                        self.checkpoint();
+                    }
 
                     // Consume as identifier, no reserved words here,
                     // so we do not need the full lex_identifier logic
